@@ -46,4 +46,340 @@ theorem specFcs_findChunkShape (shape : List Nat) (nMax : Nat) (hn : 0 < nMax)
       _ ≤ nMax := hp
   · simpa using ha
 
+
+/-! ## iterate_chunks (product form): exact partition -/
+
+/-- Predicate "position `i` lies in the 1-d chunk `p`". -/
+def in1 (i : Nat) (p : Nat × Nat) : Bool := decide (p.1 ≤ i) && decide (i < p.2)
+
+theorem chunks1d_count (h c : Nat) (hc : 0 < c) (i : Nat) :
+    ∀ fuel s, h ≤ s + fuel →
+      (chunks1d h c fuel s).countP (in1 i) = if s ≤ i ∧ i < h then 1 else 0 := by
+  intro fuel
+  induction fuel with
+  | zero =>
+    intro s hs
+    have : ¬ (s ≤ i ∧ i < h) := by omega
+    simp [chunks1d, this]
+  | succ fuel ih =>
+    intro s hs
+    unfold chunks1d
+    by_cases hsh : s < h
+    · simp only [hsh, if_true, List.countP_cons, ih (s + c) (by omega), in1, Bool.and_eq_true,
+        decide_eq_true_eq]
+      repeat' split
+      all_goals omega
+    · have : ¬ (s ≤ i ∧ i < h) := by omega
+      simp [hsh, this]
+
+theorem chunks1d_mem (h c : Nat) (hc : 0 < c) (p : Nat × Nat) :
+    ∀ fuel s, p ∈ chunks1d h c fuel s → p.1 < p.2 ∧ p.2 ≤ h ∧ p.2 - p.1 ≤ c := by
+  intro fuel
+  induction fuel with
+  | zero => intro s hp; simp [chunks1d] at hp
+  | succ fuel ih =>
+    intro s hp
+    unfold chunks1d at hp
+    by_cases hsh : s < h
+    · simp only [hsh, if_true, List.mem_cons] at hp
+      rcases hp with rfl | hp
+      · simp only; omega
+      · exact ih _ hp
+    · simp [hsh] at hp
+
+theorem inChunk_cons (i : Nat) (is : List Nat) (p : Nat × Nat) (cs : Chunk) :
+    inChunk (i :: is) (p :: cs) = (in1 i p && inChunk is cs) := by
+  obtain ⟨a, b⟩ := p
+  simp [inChunk, in1]
+
+theorem countP_prod (i : Nat) (is : List Nat) (H : List (Nat × Nat)) (T : List Chunk) :
+    (T.flatMap fun tail => H.map (· :: tail)).countP (inChunk (i :: is)) =
+      H.countP (in1 i) * T.countP (inChunk is) := by
+  induction T with
+  | nil => simp
+  | cons t T ih =>
+    rw [List.flatMap_cons, List.countP_append, ih, List.countP_cons, List.countP_map]
+    have : (inChunk (i :: is) ∘ fun x => x :: t) = fun p => (in1 i p && inChunk is t) := by
+      funext p; simp [inChunk_cons]
+    rw [this]
+    by_cases ht : inChunk is t = true
+    · simp [ht, Nat.mul_add, Nat.add_comm]
+    · simp [ht]
+
+theorem mem_allIndices_cons (h : Nat) (hs : List Nat) (idx : List Nat)
+    (hm : idx ∈ allIndices (h :: hs)) : ∃ i is, idx = i :: is ∧ i < h ∧ is ∈ allIndices hs := by
+  simp only [allIndices, List.mem_flatMap, List.mem_range, List.mem_map] at hm
+  obtain ⟨i, hi, is, his, rfl⟩ := hm
+  exact ⟨i, is, rfl, hi, his⟩
+
+theorem prod_count (shape : List Nat) : ∀ (chunk idx : List Nat), chunk.length = shape.length →
+    (∀ c ∈ chunk, 0 < c) → idx ∈ allIndices shape →
+    (iterateChunksProd shape chunk).countP (inChunk idx) = 1 := by
+  induction shape with
+  | nil =>
+    intro chunk idx hl _ hidx
+    have : chunk = [] := List.eq_nil_of_length_eq_zero (by simpa using hl)
+    subst this
+    simp [allIndices] at hidx
+    subst hidx
+    simp [iterateChunksProd, inChunk]
+  | cons h hs ih =>
+    intro chunk idx hl hc hidx
+    match chunk, hl with
+    | c :: cs, hl =>
+      obtain ⟨i, is, rfl, hi, his⟩ := mem_allIndices_cons h hs idx hidx
+      have hc0 : 0 < c := hc c (by simp)
+      simp only [iterateChunksProd]
+      rw [countP_prod, ih cs is (by simpa using hl) (fun c hc' => hc c (by simp [hc'])) his,
+        chunks1d_count h c hc0 i h 0 (by omega)]
+      simp [hi]
+
+theorem prod_within (shape : List Nat) : ∀ (chunk : List Nat), chunk.length = shape.length →
+    (∀ c ∈ chunk, 0 < c) → ∀ ch ∈ iterateChunksProd shape chunk,
+      chunkWithin ch shape = true ∧ chunkSize ch ≤ prod chunk ∧
+      ((ch.zip chunk).all fun p => decide (p.1.2 - p.1.1 ≤ p.2)) = true := by
+  induction shape with
+  | nil =>
+    intro chunk hl _ ch hch
+    have : chunk = [] := List.eq_nil_of_length_eq_zero (by simpa using hl)
+    subst this
+    simp [iterateChunksProd] at hch
+    subst hch
+    simp [chunkWithin, chunkSize]
+  | cons h hs ih =>
+    intro chunk hl hc ch hch
+    match chunk, hl with
+    | c :: cs, hl =>
+      have hc0 : 0 < c := hc c (by simp)
+      simp only [iterateChunksProd, List.mem_flatMap, List.mem_map] at hch
+      obtain ⟨tail, htail, p, hp, rfl⟩ := hch
+      obtain ⟨h1, h2, h3⟩ := ih cs (by simpa using hl) (fun c hc' => hc c (by simp [hc'])) tail htail
+      obtain ⟨q1, q2, q3⟩ := chunks1d_mem h c hc0 p h 0 hp
+      obtain ⟨a, b⟩ := p
+      simp only at q1 q2 q3
+      refine ⟨?_, ?_, ?_⟩
+      · simp [chunkWithin, h1, q1, q2]
+      · simp only [chunkSize, List.map_cons, prod_cons] at *
+        exact Nat.mul_le_mul q3 h2
+      · rw [List.zip_cons_cons, List.all_cons, h3]; simp; omega
+
+theorem specIter_prod_chunkShape (shape chunk : List Nat) (hl : chunk.length = shape.length)
+    (hc : ∀ c ∈ chunk, 0 < c) :
+    specIter shape (some chunk) none (iterateChunksProd shape chunk) = true := by
+  unfold specIter isPartition
+  simp only [Bool.and_eq_true, List.all_eq_true, Bool.and_true]
+  refine ⟨⟨?_, ?_⟩, ?_⟩
+  · intro ch hch; exact (prod_within shape chunk hl hc ch hch).1
+  · intro idx hidx
+    have := prod_count shape chunk idx hl hc hidx
+    rw [List.countP_eq_length_filter] at this
+    simp [this]
+  · intro ch hch
+    have := (prod_within shape chunk hl hc ch hch).2.2
+    simpa [List.all_eq_true] using this
+
+theorem specIter_prod_nMax (shape : List Nat) (n : Nat) (hn : 0 < n) (hs : ∀ s ∈ shape, 0 < s) :
+    specIter shape none (some n) (iterateChunksProd shape (findChunkShape shape n)) = true := by
+  obtain ⟨hl, hp, hr, ha⟩ := fcs_inv shape n hn hs
+  have hpos : ∀ c ∈ findChunkShape shape n, 0 < c := by
+    intro c hc
+    unfold findChunkShape at hc
+    obtain ⟨k, hk, rfl⟩ := List.getElem_of_mem hc
+    have hk' : k < ((fcs shape n).1.zip shape).length := by simp [List.length_zip, hl]; omega
+    have := (List.all_eq_true.mp ha) (((fcs shape n).1.zip shape)[k]) (List.getElem_mem hk')
+    simp at this
+    omega
+  have hprod : prod (findChunkShape shape n) ≤ n := by
+    unfold findChunkShape
+    calc prod (fcs shape n).1 = prod (fcs shape n).1 * 1 := by simp
+      _ ≤ prod (fcs shape n).1 * (fcs shape n).2 := Nat.mul_le_mul_left _ hr
+      _ ≤ n := hp
+  have hl' : (findChunkShape shape n).length = shape.length := hl
+  unfold specIter isPartition
+  simp only [Bool.and_eq_true, List.all_eq_true, Bool.and_true, decide_eq_true_eq]
+  refine ⟨⟨?_, ?_⟩, ?_⟩
+  · intro ch hch; exact (prod_within shape _ hl' hpos ch hch).1
+  · intro idx hidx
+    have := prod_count shape _ idx hl' hpos hidx
+    rw [List.countP_eq_length_filter] at this
+    simp [this]
+  · intro ch hch
+    exact Nat.le_trans (prod_within shape _ hl' hpos ch hch).2.1 hprod
+
+
+/-! ## unbroadcast / broadcast_to -/
+
+theorem unb_shape_length (sh st : List Nat) (hl : sh.length = st.length) :
+    ((sh.zip st).map fun p => if p.2 == 0 then 1 else p.1).length = sh.length := by
+  simp [List.length_zip, hl]
+
+theorem unb_compatible (sh : List Nat) : ∀ (st : List Nat), sh.length = st.length →
+    ((((sh.zip st).map fun p => if p.2 == 0 then 1 else p.1).zip sh).all
+      fun p => p.1 == p.2 || p.1 == 1) = true := by
+  induction sh with
+  | nil => intro st _; simp
+  | cons h hs ih =>
+    intro st hl
+    match st, hl with
+    | t :: ts, hl =>
+      simp only [List.zip_cons_cons, List.map_cons, List.all_cons, Bool.and_eq_true]
+      refine ⟨?_, ih ts (by simpa using hl)⟩
+      by_cases ht : t = 0 <;> simp [ht]
+
+theorem unb_strides (sh : List Nat) : ∀ (st : List Nat), sh.length = st.length →
+    ((((sh.zip st).map fun p => if p.2 == 0 then 1 else p.1).zip (st.zip sh)).map
+      fun p => if p.1 == 1 && p.2.2 != 1 then 0 else p.2.1) = st := by
+  induction sh with
+  | nil => intro st hl; simp at hl; simp [List.eq_nil_of_length_eq_zero hl.symm]
+  | cons h hs ih =>
+    intro st hl
+    match st, hl with
+    | t :: ts, hl =>
+      simp only [List.zip_cons_cons, List.map_cons]
+      rw [ih ts (by simpa using hl)]
+      congr 1
+      by_cases ht : t = 0
+      · subst ht; by_cases hh : h = 1 <;> simp [hh]
+      · by_cases hh : h = 1 <;> simp [ht, hh]
+
+theorem specUnbroadcast_unbroadcast (a : Strided) (hl : a.shape.length = a.strides.length) :
+    specUnbroadcast a (unbroadcast a) = true := by
+  unfold specUnbroadcast broadcastTo unbroadcast
+  simp only [unb_shape_length _ _ hl, ne_eq, not_true_eq_false, if_false,
+    unb_compatible _ _ hl, if_true, unb_strides _ _ hl]
+  simp
+
+/-! ## unique: sorted categories, codes index them -/
+
+theorem mem_insertSorted (x y : Int) (l : List Int) :
+    y ∈ insertSorted x l ↔ y = x ∨ y ∈ l := by
+  induction l with
+  | nil => simp [insertSorted]
+  | cons z zs ih =>
+    unfold insertSorted
+    split
+    · simp
+    · split
+      · rename_i h; subst h; simp
+      · simp [ih]; constructor <;> (intro h; rcases h with h | h | h <;> simp [h])
+
+theorem mem_categories (y : Int) (xs : List Int) : y ∈ categories xs ↔ y ∈ xs := by
+  induction xs with
+  | nil => simp [categories]
+  | cons x xs ih =>
+    show y ∈ insertSorted x (categories xs) ↔ _
+    rw [mem_insertSorted, ih]; simp
+
+/-- `strictSorted` with an explicit lower bound on the head, for the insertion induction. -/
+theorem strictSorted_cons (x : Int) (l : List Int) :
+    strictSorted (x :: l) = true ↔ (∀ y ∈ l, x < y) ∧ strictSorted l = true := by
+  induction l generalizing x with
+  | nil => simp [strictSorted]
+  | cons z zs ih =>
+    simp only [strictSorted, Bool.and_eq_true, decide_eq_true_eq, List.mem_cons, forall_eq_or_imp]
+    rw [ih z]
+    constructor
+    · rintro ⟨hxz, hz, hs⟩
+      exact ⟨⟨hxz, fun y hy => Int.lt_trans hxz (hz y hy)⟩, hz, hs⟩
+    · rintro ⟨⟨hxz, _⟩, hz, hs⟩
+      exact ⟨hxz, hz, hs⟩
+
+theorem strictSorted_insertSorted (x : Int) (l : List Int) (h : strictSorted l = true) :
+    strictSorted (insertSorted x l) = true := by
+  induction l with
+  | nil => simp [insertSorted, strictSorted]
+  | cons z zs ih =>
+    rw [strictSorted_cons] at h
+    unfold insertSorted
+    split
+    · rename_i hxz
+      rw [strictSorted_cons]
+      refine ⟨?_, (strictSorted_cons z zs).mpr h⟩
+      intro y hy
+      rcases List.mem_cons.mp hy with rfl | hy
+      · exact hxz
+      · exact Int.lt_trans hxz (h.1 y hy)
+    · split
+      · exact (strictSorted_cons z zs).mpr h
+      · rename_i h1 h2
+        rw [strictSorted_cons]
+        refine ⟨?_, ih h.2⟩
+        intro y hy
+        rcases (mem_insertSorted x y zs).mp hy with rfl | hy
+        · omega
+        · exact h.1 y hy
+
+theorem strictSorted_categories (xs : List Int) : strictSorted (categories xs) = true := by
+  induction xs with
+  | nil => simp [categories, strictSorted]
+  | cons x xs ih => exact strictSorted_insertSorted x _ ih
+
+theorem getElem?_indexOf (x : Int) (l : List Int) (h : x ∈ l) : l[indexOf x l]? = some x := by
+  induction l with
+  | nil => simp at h
+  | cons y ys ih =>
+    unfold indexOf
+    by_cases hxy : x = y
+    · simp [hxy]
+    · have : x ∈ ys := by simpa [hxy] using h
+      simp [hxy, ih this]
+
+theorem mem_zip_map_self {α β : Type} (f : α → β) (xs : List α) (p : α × β)
+    (hp : p ∈ xs.zip (xs.map f)) : p.2 = f p.1 ∧ p.1 ∈ xs := by
+  induction xs with
+  | nil => simp at hp
+  | cons x xs ih =>
+    simp only [List.map_cons, List.zip_cons_cons, List.mem_cons] at hp
+    rcases hp with rfl | hp
+    · simp
+    · have := ih hp
+      exact ⟨this.1, List.mem_cons_of_mem _ this.2⟩
+
+theorem specUnique_model (xs : List Int) : specUnique xs (categories xs) (codes xs) = true := by
+  unfold specUnique
+  simp only [Bool.and_eq_true, List.all_eq_true, beq_iff_eq]
+  refine ⟨⟨⟨strictSorted_categories xs, by simp [codes]⟩, ?_⟩, ?_⟩
+  · intro p hp
+    obtain ⟨h1, h2⟩ := mem_zip_map_self _ xs p hp
+    rw [h1]
+    exact getElem?_indexOf p.1 _ ((mem_categories p.1 xs).mpr h2)
+  · intro c hc
+    simp [(mem_categories c xs).mp hc]
+
+/-! ## Python ranges -/
+
+theorem rangeUp_length (e : Int) (st : Nat) (hst : 0 < st) :
+    ∀ (fuel : Nat) (b : Int), rangeLen b e st ≤ fuel → (rangeUp b e st fuel).length = rangeLen b e st := by
+  intro fuel
+  induction fuel with
+  | zero => intro b h; simp [rangeUp]; omega
+  | succ fuel ih =>
+    intro b h
+    unfold rangeUp
+    by_cases hbe : b < e
+    · simp only [hbe, if_true, List.length_cons]
+      have hrec : rangeLen b e st = rangeLen (b + st) e st + 1 := by
+        unfold rangeLen
+        simp only [hbe, if_true]
+        by_cases h2 : b + (st : Int) < e
+        · simp only [h2, if_true]
+          have : (e - b).toNat = (e - (b + st)).toNat + st := by omega
+          rw [this]
+          have : (e - (b + ↑st)).toNat + st + st - 1 = ((e - (b + ↑st)).toNat + st - 1) + st := by omega
+          rw [this, Nat.add_div_right _ hst]
+        · simp only [h2, if_false]
+          have h3 : (e - b).toNat + st - 1 < 2 * st := by omega
+          have h4 : st ≤ (e - b).toNat + st - 1 := by omega
+          have : ((e - b).toNat + st - 1) / st = 1 := by
+            apply Nat.div_eq_of_lt_le <;> omega
+          omega
+      rw [ih (b + st) (by omega), hrec]
+    · have : rangeLen b e st = 0 := by simp [rangeLen, hbe]
+      simp [hbe, this]
+
+/-- `len(range(b, e, st)) ` as computed by `rangeLen`. -/
+theorem pyRange_length (b e : Int) (st : Nat) (hst : 0 < st) :
+    (pyRange b e st).length = rangeLen b e st :=
+  rangeUp_length e st hst _ b (Nat.le_refl _)
+
 end GlueVerif.Lemmas
